@@ -309,6 +309,22 @@ def fresh(module_names):
     return mods
 
 
+def alone(body):
+    """What a thread body yields when it runs alone (same shape as Execution.results entries); what the code under test
+    raises is an observation here too."""
+    try:
+        return ("ok", body())
+    except BaseException as e:  # noqa: BLE001
+        return ("raised", f"{type(e).__name__}: {e}")
+
+
+class Alone:
+    """Marks an expected entry that is already a full result tuple (from alone())."""
+
+    def __init__(self, result):
+        self.result = result
+
+
 def judge_values(expected, after=None):
     """Every thread must return its expected value; `after()` is a sequential post-check on the state left behind."""
 
@@ -316,10 +332,14 @@ def judge_values(expected, after=None):
         if deadlock:
             return f"deadlock: {deadlock}"
         for i, (r, e) in enumerate(zip(results, expected)):
-            if r != ("ok", e):
-                return f"thread {i} got {r!r}, alone it returns {('ok', e)!r}"
+            want = e.result if isinstance(e, Alone) else ("ok", e)
+            if r != want:
+                return f"thread {i} got {r!r}, alone it returns {want!r}"
         if after is not None:
-            return after()
+            try:
+                return after()
+            except Exception as e:  # noqa: BLE001 - the code under test raising in the sequential post-check
+                return f"after both threads finished, a sequential call raised {type(e).__name__}: {e}"
         return None
 
     return judge
@@ -343,7 +363,14 @@ def _one_case(job):
     setup = threadcases.cases(pid)[label]
     # iterate the bound (fewest preemptions first): 1 always; 2 when the executions are short enough for the tier's
     # budget (about points^2 / 2 schedules); 3 in the thorough tier for very short ones
-    r = explore(setup, 1, thin=400 if tier == "quick" else 4000)
+    try:
+        r = explore(setup, 1, thin=400 if tier == "quick" else 4000)
+    except loader.HarnessError:
+        raise
+    except Exception as e:  # noqa: BLE001
+        # the code under test raised while the case was being set up (outside the threads): nothing to schedule; the
+        # sequential part of the check owns that failure
+        return label, {"executions": 0, "max_points": 0, "violation": None, "complete": False, "bound": 0, "setup_failed": f"{type(e).__name__}: {e}"}
     r["bound"] = 1
     total = r["executions"]
     for bound, limit in ((2, 90 if tier == "quick" else 260), (3, 0 if tier == "quick" else 45)):
@@ -371,6 +398,8 @@ def run_cases(pid, tier="quick"):
         cov["preemption_bounds"][label] = r["bound"]
         cov["max_scheduling_points"] = max(cov["max_scheduling_points"], r["max_points"])
         cov["all_complete"] &= r["complete"] or r["violation"] is not None
+        if r.get("setup_failed"):
+            cov.setdefault("cases_not_set_up", {})[label] = r["setup_failed"][:200]
         if r.get("thinned"):
             cov.setdefault("thinned_cases", []).append(label)
         if r["violation"]:
